@@ -12,23 +12,14 @@ open Bexpr.Eval.Effects
 
 def fromEvaluate (fn : String) : Bool := BexprGen.Effects.reachableFromEvaluate.contains fn
 
-/-- the benign cache site (pinned tree: in `doMatchMatches`; repaired tree: in `precompileRegexps`),
-    identified by function, kind and source text (whatever its class) -/
-def isRegexpCacheSite (s : Site) : Bool :=
-  let (fn, kind, _, text) := s
-  (fn, kind, text) == ("doMatchMatches", "assign-field", "expression.Value.Converted = re") ||
-  (fn, kind, text) == ("precompileRegexps", "assign-field", "node.Value.Converted = re")
-
-theorem no_shared_write_except_regexp_cache :
-    BexprGen.Effects.storeSites.all (fun s => !fromEvaluate s.1 || isLocalSite s || isRegexpCacheSite s) = true := by
-  decide +kernel
-
-theorem append_targets_fresh :
-    BexprGen.Effects.appendOrigins.all (fun o => !fromEvaluate o.1 || isFreshOrigin o) = true := by
-  decide +kernel
-
-theorem globals_readonly :
-    BexprGen.Effects.globals = [("byteSliceTyp", "reflect.TypeOf([]byte{})")] := by
+/-- every package-level variable is initialised with a value the code can only READ: a `reflect.Type`, an
+    `errors.New` value, a basic literal, or a table from reflect kinds to function names (a store into such a
+    table would be a `shared` store site, which the class obligations above exclude).  A `sync.Pool`, a
+    `sync.Map`, a cache, a counter, a buffer — anything else — has no class and fails here. -/
+theorem globals_immutable :
+    BexprGen.Effects.globalClasses.all
+      (fun g => ["typeOf", "errorsNew", "basic", "kindFnTable"].contains g.2) = true ∧
+    BexprGen.Effects.globalClasses.length = BexprGen.Effects.globals.length := by
   decide +kernel
 
 end Bexpr.Ties.EffectsC13
